@@ -320,32 +320,36 @@ Proof.
   induction l as [|x l IH]; cbn; [tauto|]. rewrite insert_uniq_in, IH. intuition.
 Qed.
 
-Lemma supply_inv st p st' :
-  Inv gm gr st -> supply ow st p = Ok st' -> Inv gm gr st' /\ same_frame st st'.
+Lemma add_sink_inv st p k : Inv gm gr st -> Inv gm gr (add_sink st p k).
+Proof. intros HI. eapply Inv_frame; [| | |exact HI]; reflexivity. Qed.
+
+Lemma supply_inv k st p st' :
+  Inv gm gr st -> supply ow k st p = Ok st' -> Inv gm gr st' /\ same_frame st st'.
 Proof.
   intros HI H. unfold supply in H.
   destruct (lookup p (claims st)) as [cl|] eqn:El.
-  - destruct (role_eqb (c_role cl) RVolatile); [discriminate|]. inversion H; subst.
-    split; [assumption|apply same_frame_refl].
+  - destruct (role_eqb (c_role cl) RVolatile).
+    + destruct (phrase_of (c_by cl)); discriminate.
+    + inversion H; subst. split; [now apply add_sink_inv|repeat split].
   - destruct (find_owner ow st p) as [o|m] eqn:Eo; cbn [bind] in H; [|discriminate].
     destruct (bad_name p); [discriminate|].
     destruct o as [[t tc]|].
-    + inversion H; subst. split; [|repeat split].
+    + inversion H; subst. split; [|repeat split]. apply add_sink_inv.
       apply find_owner_some in Eo as [Hin Hp].
       apply set_claim_inv; auto.
       * intros t' Ht' Hp'. split; [reflexivity|]. f_equal. apply is_prefix_probe in Hp'.
         symmetry. eapply owner_unique; eauto. eapply in_tree_labels; eauto.
       * cbn. discriminate.
     + inversion H; subst. destruct (mem_str p (loose st)).
-      * split; [assumption|apply same_frame_refl].
-      * split; [|repeat split]. eapply Inv_frame; [| | |exact HI]; reflexivity.
+      * split; [now apply add_sink_inv|repeat split].
+      * split; [|repeat split]. apply add_sink_inv. eapply Inv_frame; [| | |exact HI]; reflexivity.
 Qed.
 
-Lemma fold_supply_inv ps st st' :
-  Inv gm gr st -> fold_res (supply ow) ps st = Ok st' -> Inv gm gr st' /\ same_frame st st'.
+Lemma fold_supply_inv k ps st st' :
+  Inv gm gr st -> fold_res (supply ow k) ps st = Ok st' -> Inv gm gr st' /\ same_frame st st'.
 Proof.
   intros HI H.
-  apply (fold_res_inv (supply ow) (fun _ _ => True)) with (l := ps); auto.
+  apply (fold_res_inv (supply ow k) (fun _ _ => True)) with (l := ps); auto.
   intros s a s' HIs _ Hs. eapply supply_inv; eauto.
 Qed.
 
@@ -603,6 +607,7 @@ Proof.
     [discriminate|].
   destruct (dir_inputs (sort_uniq inps)); cbn [bind] in H; [|discriminate].
   destruct (creator_eqb c (CStep lbl)); [discriminate|].
+  match type of H with (if ?b then _ else _) = _ => destruct b; [discriminate|] end.
   destruct (glob_check gm (globs st) lbl (sort_uniq (sort_uniq outs ++ sort_uniq vols))) as [u|] eqn:Eg;
     cbn [bind] in H; [|discriminate].
   apply unit_res_tt in Eg.
@@ -610,13 +615,13 @@ Proof.
   destruct (check_all st (WPhrase (phrase_step lbl)) ROutput (sort_uniq outs)); cbn [bind] in H; [|discriminate].
   destruct (check_all st (WPhrase (phrase_step lbl)) RVolatile (sort_uniq vols)); cbn [bind] in H; [|discriminate].
   destruct (overlap_check (phrase_step lbl) (sort_uniq outs) (sort_uniq vols)); cbn [bind] in H; [|discriminate].
-  match type of H with bind (fold_res (supply ow) _ ?s) _ = _ => set (st1 := s) in * end.
+  match type of H with bind (fold_res (supply ow _) _ ?s) _ = _ => set (st1 := s) in * end.
   assert (HI1 : Inv gm gr st1) by (eapply Inv_frame; [| | |exact HI]; reflexivity).
   assert (Hgf : forall p, In p (sort_uniq outs) \/ In p (sort_uniq vols) -> glob_free st1 p).
   { intros p Hp. apply (glob_free_of_check st1 lbl (sort_uniq (sort_uniq outs ++ sort_uniq vols))); [exact Eg|].
     apply sort_uniq_in. apply in_or_app. exact Hp. }
-  destruct (fold_res (supply ow) (sort_uniq inps) st1) as [st2|] eqn:E2; cbn [bind] in H; [|discriminate].
-  destruct (fold_supply_inv _ _ _ HI1 E2) as [HI2 Hf2].
+  destruct (fold_res (supply ow lbl) (sort_uniq inps) st1) as [st2|] eqn:E2; cbn [bind] in H; [|discriminate].
+  destruct (fold_supply_inv _ _ _ _ HI1 E2) as [HI2 Hf2].
   destruct (fold_res (declare_file ow (CStep lbl) ROutput) (sort_uniq outs) st2) as [st3|] eqn:E3;
     cbn [bind] in H; [|discriminate].
   destruct (fold_declare_inv _ _ _ _ _ HI2
@@ -635,8 +640,8 @@ Proof.
   intros HI H. unfold amend_step in H.
   destruct (require_step st (CStep s)); cbn [bind] in H; [|discriminate].
   destruct (dir_inputs (sort_uniq inps)); cbn [bind] in H; [|discriminate].
-  destruct (fold_res (supply ow) (sort_uniq inps) st) as [st1|] eqn:E1; cbn [bind] in H; [|discriminate].
-  destruct (fold_supply_inv _ _ _ HI E1) as [HI1 Hf1].
+  destruct (fold_res (supply ow s) (sort_uniq inps) st) as [st1|] eqn:E1; cbn [bind] in H; [|discriminate].
+  destruct (fold_supply_inv _ _ _ _ HI E1) as [HI1 Hf1].
   destruct (check_all st1 (WNode (CStep s)) ROutput (sort_uniq outs)) as [outs'|] eqn:Eo;
     cbn [bind] in H; [|discriminate].
   destruct (check_all st1 (WNode (CStep s)) RVolatile (sort_uniq vols)) as [vols'|] eqn:Ev;
@@ -1233,7 +1238,7 @@ Qed.
    structured message. *)
 Theorem tree_product_either_order (d p : str) (c : creator) (cl : claim) trees0 :
   c_role cl <> RStatic ->
-  let st_tree := mkState [] [] ((d, c) :: trees0) [] [] in
+  let st_tree := mkState [] [] ((d, c) :: trees0) [] [] [] in
   (forall t, In t (map fst trees0) -> is_prefix t p = false) ->
   (* tree first, then the product *)
   (is_prefix d p = true ->
@@ -1300,7 +1305,8 @@ Definition state_equiv (a b : state) : Prop :=
   (forall t, lookup t (trees a) = lookup t (trees b)) /\
   (forall l, lookup l (steps a) = lookup l (steps b)) /\
   (forall p, mem_str p (loose a) = mem_str p (loose b)) /\
-  (forall g, In g (globs a) <-> In g (globs b)).
+  (forall g, In g (globs a) <-> In g (globs b)) /\
+  sinks a = sinks b.
 
 Definition req_creator (r : req) : creator :=
   match r with
@@ -1379,7 +1385,7 @@ Definition tree_decide (c : creator) (path : str) (st : state) : tree_case :=
   end end.
 
 Definition tree_state (c : creator) (d : str) (st : state) : state :=
-  mkState (handover d (claims st)) (loose st) ((d, c) :: trees st) (steps st) (globs st).
+  mkState (handover d (claims st)) (loose st) ((d, c) :: trees st) (steps st) (globs st) (sinks st).
 
 Lemma register_tree_decide c path st :
   register_tree false c path st =
@@ -2096,7 +2102,7 @@ Definition glob_sem (s pat : str) (ms : list str) (st : state) : res state :=
       match find_first (is_prefix stepup_prefix) ms' with
       | Some p => Err (MStepupGlob pat p)
       | None => Ok (mkState (claims st) (loose st) (trees st) (steps st)
-                            (globs st ++ [mkGlob s pat ms']))
+                            (globs st ++ [mkGlob s pat ms']) (sinks st))
       end
   end).
 
@@ -2125,7 +2131,7 @@ Proof.
     [cbn in H1; discriminate H1|].
   apply min_entry_none in Emin.
   set (g := mkGlob sg pat (sort_uniq (filter (gm pat) ms))) in *.
-  set (stg := mkState (claims st) (loose st) (trees st) (steps st) (globs st ++ [g])).
+  set (stg := mkState (claims st) (loose st) (trees st) (steps st) (globs st ++ [g]) (sinks st)).
   assert (Hg : glob_sem sg pat ms st = Ok stg).
   { unfold glob_sem. rewrite Erg. cbn [bind]. cbv zeta. rewrite Emin. cbn [min_entry]. rewrite Esu. reflexivity. }
   rewrite Hg. cbn [bind].
@@ -2267,19 +2273,19 @@ Proof.
      match bad_name q with Some m => Err m | None =>
      match lookup q (claims (set_claim st p cl)) with
      | Some _ => Err (MNodeExists (s2l "file:" ++ q))
-     | None => if role_eqb r RVolatile && mem_str q (loose (set_claim st p cl)) then Err (MVolatileHasSinks q)
+     | None => if role_eqb r RVolatile && mem_str q (loose (set_claim st p cl)) then match phrase_of k with Ok ph => Err (MVolInput q ph (phrase_step (first_consumer st q))) | Err m => Err m end
                else Ok (set_claim (set_claim st p cl) q (mkClaim r k)) end end) =
     match (if is_prefix stepup_prefix q then Err (MStepupFile q) else
      match bad_name q with Some m => Err m | None =>
      match lookup q (claims st) with
      | Some _ => Err (MNodeExists (s2l "file:" ++ q))
-     | None => if role_eqb r RVolatile && mem_str q (loose st) then Err (MVolatileHasSinks q)
+     | None => if role_eqb r RVolatile && mem_str q (loose st) then match phrase_of k with Ok ph => Err (MVolInput q ph (phrase_step (first_consumer st q))) | Err m => Err m end
                else Ok (set_claim st q (mkClaim r k)) end end) with
     | Ok _ => Ok (set_claim (set_claim st p cl) q (mkClaim r k)) | Err m => Err m end).
   { intros k. destruct (is_prefix stepup_prefix q); [reflexivity|]. destruct (bad_name q); [reflexivity|].
     rewrite (lookup_set_claim_other st p cl q Hne). destruct (lookup q (claims st)); [reflexivity|].
     cbn [loose set_claim]. rewrite (mem_remove_other p q _ Hne).
-    destruct (role_eqb r RVolatile && mem_str q (loose st)); reflexivity. }
+    destruct (role_eqb r RVolatile && mem_str q (loose st)); [destruct (phrase_of k); reflexivity|reflexivity]. }
   destruct c0 as [|l|t]; cbn [bind].
   - destruct (find_owner false st q) as [[[t tc]|]|m]; cbn [bind].
     + destruct (role_eqb r RStatic); reflexivity.
@@ -2442,7 +2448,7 @@ Definition define1 (c : creator) (lbl : str) (r : role) (p : str) : req :=
   match r with RVolatile => RqDefine c lbl [] [] [p] | _ => RqDefine c lbl [] [p] [] end.
 
 Definition add_step (st : state) (lbl : str) (c : creator) : state :=
-  mkState (claims st) (loose st) (trees st) ((lbl, c) :: steps st) (globs st).
+  mkState (claims st) (loose st) (trees st) ((lbl, c) :: steps st) (globs st) (sinks st).
 
 Definition dup_guard (c : creator) (lbl : str) (st : state) : res unit :=
   match lookup lbl (steps st) with
@@ -2455,10 +2461,14 @@ Definition dup_guard (c : creator) (lbl : str) (st : state) : res unit :=
       end
   end.
 
+Definition chain_guard (c : creator) (lbl : str) (st : state) : bool :=
+  match c with CStep l => is_ancestor (List.length (steps st)) (steps st) l lbl | _ => false end.
+
 Definition define1_sem (c : creator) (lbl : str) (r : role) (p : str) (st : state) : res state :=
   bind (require_step st c) (fun _ =>
   if creator_eqb c CRoot && existsb (fun sc => creator_eqb (snd sc) CRoot) (steps st) then Err MBoot else
   if creator_eqb c (CStep lbl) then Err (MSelfDefine lbl) else
+  if chain_guard c lbl st then Err (MDefineCreator (creator_label c) lbl) else
   bind (glob_check gm (globs st) lbl [p]) (fun _ =>
   bind (dup_guard c lbl st) (fun _ =>
   bind (check_decl st (WPhrase (phrase_step lbl)) p r) (fun _ =>
@@ -2472,6 +2482,7 @@ Proof.
     destruct (creator_eqb c CRoot && existsb (fun sc => creator_eqb (snd sc) CRoot) (steps st)); try reflexivity;
     cbn [sort_uniq fold_right insert_uniq dir_inputs find_first fold_res bind check_all app];
     destruct (creator_eqb c (CStep lbl)); try reflexivity;
+    fold (chain_guard c lbl st); destruct (chain_guard c lbl st); try reflexivity;
     destruct (glob_check gm (globs st) lbl [p]); cbn [bind]; try reflexivity;
     unfold dup_guard; destruct (lookup lbl (steps st)) as [c0|]; cbn [bind].
   - destruct (phrase_of c0) as [x|]; [destruct (phrase_of c) as [y|]|]; try reflexivity.
@@ -2526,6 +2537,7 @@ Proof.
   destruct (creator_eqb c2 CRoot && existsb (fun sc => creator_eqb (snd sc) CRoot) (steps st)) eqn:Eboot;
     [cbn in H2; discriminate H2|].
   destruct (creator_eqb c2 (CStep lbl)) eqn:Eself; [cbn in H2; discriminate H2|].
+  destruct (chain_guard c2 lbl st) eqn:Echain; [cbn in H2; discriminate H2|].
   destruct (glob_check gm (globs st) lbl [p]) as [[]|] eqn:Egc; cbn [bind accepted] in H2; [|discriminate H2].
   destruct (dup_guard c2 lbl st) as [[]|] eqn:Edup; cbn [bind accepted] in H2; [|discriminate H2].
   destruct (check_decl st (WPhrase (phrase_step lbl)) p r) as [b|] eqn:Ecd; cbn [bind accepted] in H2; [|discriminate H2].
@@ -2533,7 +2545,7 @@ Proof.
   destruct (declare_file_ok_inv _ _ _ _ _ (step_not_tree lbl) Edf) as [-> [F1 [F2 [F3 [F4 [F5 F6]]]]]].
   assert (Hsem : define1_sem c2 lbl r p st =
                  Ok (set_claim (add_step st lbl c2) p (mkClaim r (CStep lbl)))).
-  { unfold define1_sem. rewrite Ers. cbn [bind]. rewrite Eboot, Eself, Egc. cbn [bind]. rewrite Edup. cbn [bind].
+  { unfold define1_sem. rewrite Ers. cbn [bind]. rewrite Eboot, Eself, Echain, Egc. cbn [bind]. rewrite Edup. cbn [bind].
     rewrite Ecd. cbn [bind]. exact Edf. }
   rewrite Hsem. cbn [bind]. rewrite (step_tree gm gr), register_tree_decide.
   destruct (tree_decide c path st) eqn:ED; [| |cbn in H1; discriminate H1].
@@ -2557,7 +2569,8 @@ Proof.
     change (steps (tree_state c d st)) with (steps st).
     change (globs (tree_state c d st)) with (globs st).
     change (dup_guard c2 lbl (tree_state c d st)) with (dup_guard c2 lbl st).
-    rewrite Ers. cbn [bind]. rewrite Eboot, Eself, Egc. cbn [bind]. rewrite Edup. cbn [bind].
+    change (chain_guard c2 lbl (tree_state c d st)) with (chain_guard c2 lbl st).
+    rewrite Ers. cbn [bind]. rewrite Eboot, Eself, Echain, Egc. cbn [bind]. rewrite Edup. cbn [bind].
     assert (F5' : lookup p (claims st) = None) by exact F5.
     assert (Ecd1 : check_decl (tree_state c d st) (WPhrase (phrase_step lbl)) p r = Ok true).
     { unfold check_decl. cbn [claims tree_state]. now rewrite (lookup_handover_none d _ p F5'). }
@@ -2599,18 +2612,18 @@ Proof.
      match bad_name q with Some m => Err m | None =>
      match lookup q (claims st) with
      | Some _ => Err (MNodeExists (s2l "file:" ++ q))
-     | None => if role_eqb r RVolatile && mem_str q (loose st) then Err (MVolatileHasSinks q)
+     | None => if role_eqb r RVolatile && mem_str q (loose st) then match phrase_of k with Ok ph => Err (MVolInput q ph (phrase_step (first_consumer st q))) | Err m => Err m end
                else Ok (set_claim (add_step st l c) q (mkClaim r k)) end end) =
     match (if is_prefix stepup_prefix q then Err (MStepupFile q) else
      match bad_name q with Some m => Err m | None =>
      match lookup q (claims st) with
      | Some _ => Err (MNodeExists (s2l "file:" ++ q))
-     | None => if role_eqb r RVolatile && mem_str q (loose st) then Err (MVolatileHasSinks q)
+     | None => if role_eqb r RVolatile && mem_str q (loose st) then match phrase_of k with Ok ph => Err (MVolInput q ph (phrase_step (first_consumer st q))) | Err m => Err m end
                else Ok (set_claim st q (mkClaim r k)) end end) with
     | Ok _ => Ok (set_claim (add_step st l c) q (mkClaim r k)) | Err m => Err m end).
   { intros k. destruct (is_prefix stepup_prefix q); [reflexivity|]. destruct (bad_name q); [reflexivity|].
     destruct (lookup q (claims st)); [reflexivity|].
-    destruct (role_eqb r RVolatile && mem_str q (loose st)); reflexivity. }
+    destruct (role_eqb r RVolatile && mem_str q (loose st)); [destruct (phrase_of k); reflexivity|reflexivity]. }
   destruct c0 as [|l0|t]; cbn [bind].
   - destruct (find_owner false st q) as [[[t tc]|]|m]; cbn [bind].
     + destruct (role_eqb r RStatic); reflexivity.
@@ -2659,6 +2672,7 @@ Proof.
   destruct (creator_eqb c2 CRoot && existsb (fun sc => creator_eqb (snd sc) CRoot) (steps st)) eqn:Eboot;
     [cbn in H2; discriminate H2|].
   destruct (creator_eqb c2 (CStep lbl)) eqn:Eself; [cbn in H2; discriminate H2|].
+  destruct (chain_guard c2 lbl st) eqn:Echain; [cbn in H2; discriminate H2|].
   destruct (glob_check gm (globs st) lbl [p]) as [[]|] eqn:Egc; cbn [bind accepted] in H2; [|discriminate H2].
   destruct (dup_guard c2 lbl st) as [[]|] eqn:Edup; cbn [bind accepted] in H2; [|discriminate H2].
   destruct (check_decl st (WPhrase (phrase_step lbl)) p r) as [b|] eqn:Ecd; cbn [bind accepted] in H2; [|discriminate H2].
@@ -2667,7 +2681,7 @@ Proof.
   cbn [claims add_step] in F5.
   set (cl := mkClaim r (CStep lbl)) in *.
   assert (Hsem : define1_sem c2 lbl r p st = Ok (set_claim (add_step st lbl c2) p cl)).
-  { unfold define1_sem. rewrite Ers. cbn [bind]. rewrite Eboot, Eself, Egc. cbn [bind]. rewrite Edup. cbn [bind].
+  { unfold define1_sem. rewrite Ers. cbn [bind]. rewrite Eboot, Eself, Echain, Egc. cbn [bind]. rewrite Edup. cbn [bind].
     rewrite Ecd. cbn [bind]. exact Edf. }
   rewrite Hsem. cbn [bind].
   destruct (one_accepted gm _ _ HD) as [QD [dd [ED [[CDh SD]|[CDn [GD [DD SD]]]]]]]; rewrite SD; cbn [bind].
@@ -2694,7 +2708,8 @@ Proof.
     change (steps (set_claim st (d1_p D) (mkClaim (d1_r D) dd))) with (steps st).
     change (globs (set_claim st (d1_p D) (mkClaim (d1_r D) dd))) with (globs st).
     change (dup_guard c2 lbl (set_claim st (d1_p D) (mkClaim (d1_r D) dd))) with (dup_guard c2 lbl st).
-    rewrite Ers. cbn [bind]. rewrite Eboot, Eself, Egc. cbn [bind]. rewrite Edup. cbn [bind].
+    change (chain_guard c2 lbl (set_claim st (d1_p D) (mkClaim (d1_r D) dd))) with (chain_guard c2 lbl st).
+    rewrite Ers. cbn [bind]. rewrite Eboot, Eself, Echain, Egc. cbn [bind]. rewrite Edup. cbn [bind].
     destruct (str_eqb (d1_p D) p) eqn:Ep.
     + (* the same path: a collision, the same message *)
       apply str_eqb_eq in Ep. rewrite Ep in *.
@@ -2778,6 +2793,7 @@ Definition define_facts (c : creator) (lbl : str) (r : role) (p : str) (st : sta
   require_step st c = Ok tt /\
   creator_eqb c CRoot && existsb (fun sc => creator_eqb (snd sc) CRoot) (steps st) = false /\
   creator_eqb c (CStep lbl) = false /\
+  chain_guard c lbl st = false /\
   glob_check gm (globs st) lbl [p] = Ok tt /\
   dup_guard c lbl st = Ok tt /\
   check_decl st (WPhrase (phrase_step lbl)) p r = Ok true /\
@@ -2793,6 +2809,7 @@ Proof.
   destruct (creator_eqb c CRoot && existsb (fun sc => creator_eqb (snd sc) CRoot) (steps st)) eqn:Eboot;
     [cbn in H2; discriminate H2|].
   destruct (creator_eqb c (CStep lbl)) eqn:Eself; [cbn in H2; discriminate H2|].
+  destruct (chain_guard c lbl st) eqn:Echain; [cbn in H2; discriminate H2|].
   destruct (glob_check gm (globs st) lbl [p]) as [[]|] eqn:Egc; cbn [bind accepted] in H2; [|discriminate H2].
   destruct (dup_guard c lbl st) as [[]|] eqn:Edup; cbn [bind accepted] in H2; [|discriminate H2].
   destruct (check_decl st (WPhrase (phrase_step lbl)) p r) as [b|] eqn:Ecd; cbn [bind accepted] in H2; [|discriminate H2].
@@ -2801,15 +2818,43 @@ Proof.
   assert (b = true).
   { unfold check_decl in Ecd. destruct (lookup p (claims st)); [discriminate Ecd|]. now inversion Ecd. }
   subst b. unfold define_facts. repeat split; auto.
-  unfold define1_sem. rewrite Ers. cbn [bind]. rewrite Eboot, Eself, Egc. cbn [bind]. rewrite Edup. cbn [bind].
+  unfold define1_sem. rewrite Ers. cbn [bind]. rewrite Eboot, Eself, Echain, Egc. cbn [bind]. rewrite Edup. cbn [bind].
   rewrite Ecd. cbn [bind]. exact Edf.
 Qed.
 
 Lemma phrase_of_nontree c : (forall t, c <> CTree t) -> exists ph, phrase_of c = Ok ph.
 Proof. destruct c; intros H; [eexists; reflexivity|eexists; reflexivity|exfalso; eapply H; eauto]. Qed.
 
+(* every step's creator is StepUp itself or an existing step (holds in reachable states: a
+   definition is only accepted from an existing creator) *)
+Definition steps_closed (sts : list (str * creator)) : Prop :=
+  forall l l', lookup l sts = Some (CStep l') -> lookup l' sts <> None.
+
+Lemma anc_false fuel sts lA cA l lbl :
+  steps_closed sts -> lookup lA sts = None -> lookup lbl sts = None -> lookup l sts <> None ->
+  is_ancestor fuel ((lA, cA) :: sts) l lbl = false.
+Proof.
+  intros Hc HA Hl. revert l. induction fuel as [|f IH]; intros l Hin; [reflexivity|].
+  cbn [is_ancestor lookup].
+  destruct (str_eqb l lA) eqn:E; [apply str_eqb_eq in E; subst; contradiction|].
+  destruct (lookup l sts) as [[|l'|t]|] eqn:El; try reflexivity.
+  pose proof (Hc l l' El) as Hl'.
+  destruct (str_eqb l' lbl) eqn:E2; [apply str_eqb_eq in E2; subst; contradiction|].
+  cbn [orb]. now apply IH.
+Qed.
+
+Lemma chain_guard_after st lA cA cB lB :
+  steps_closed (steps st) -> lookup lA (steps st) = None -> lookup lB (steps st) = None ->
+  require_step st cB = Ok tt -> chain_guard cB lB (add_step st lA cA) = false.
+Proof.
+  intros Hc HA HB HQ. unfold chain_guard. destruct cB as [|l|t]; try reflexivity.
+  cbn [steps add_step]. apply anc_false; auto.
+  unfold require_step, step_exists in HQ. destruct (lookup l (steps st)); [discriminate|discriminate HQ].
+Qed.
+
 (* what the second definition does after the first *)
 Lemma define_after st cA lA rA pA cB lB rB pB :
+  steps_closed (steps st) ->
   define_facts cA lA rA pA st -> define_facts cB lB rB pB st ->
   define1_sem cB lB rB pB (set_claim (add_step st lA cA) pA (mkClaim rA (CStep lA))) =
   if creator_eqb cB CRoot && creator_eqb cA CRoot then Err MBoot
@@ -2824,11 +2869,14 @@ Lemma define_after st cA lA rA pA cB lB rB pB :
   else Ok (set_claim (add_step (set_claim (add_step st lA cA) pA (mkClaim rA (CStep lA))) lB cB) pB
                      (mkClaim rB (CStep lB))).
 Proof.
-  intros [QA [BA [SA [GA [DA [CA [FA _]]]]]]] [QB [BB [SB [GB [DB [CB [FB _]]]]]]].
+  intros Hclosed [QA [BA [SA [XA [GA [DA [CA [FA _]]]]]]]] [QB [BB [SB [XB [GB [DB [CB [FB _]]]]]]]].
   unfold define1_sem.
   assert (QB' : require_step (set_claim (add_step st lA cA) pA (mkClaim rA (CStep lA))) cB = Ok tt)
     by (apply (require_add_step st lA cA _ QB)).
-  rewrite QB'. cbn [bind]. cbn [steps set_claim add_step existsb snd].
+  rewrite QB'. cbn [bind].
+  change (chain_guard cB lB (set_claim (add_step st lA cA) pA (mkClaim rA (CStep lA))))
+    with (chain_guard cB lB (add_step st lA cA)).
+  rewrite (chain_guard_after st lA cA cB lB Hclosed (dup_guard_none _ _ _ DA) (dup_guard_none _ _ _ DB) QB). cbn [steps set_claim add_step existsb snd].
   destruct (creator_eqb cB CRoot) eqn:EbR.
   - cbn [andb] in *. rewrite BB, orb_false_r.
     destruct (creator_eqb cA CRoot) eqn:EaR; [reflexivity|].
@@ -2874,20 +2922,20 @@ Proof.
 Qed.
 
 Theorem define_define_commute st cA lA rA pA cB lB rB pB :
-  Inv gm gr st -> product_role rA = true -> product_role rB = true ->
+  Inv gm gr st -> steps_closed (steps st) -> product_role rA = true -> product_role rB = true ->
   accepted (step gm false gr st (define1 cA lA rA pA)) = true ->
   accepted (step gm false gr st (define1 cB lB rB pB)) = true ->
   both_equiv (run gm false gr st [define1 cA lA rA pA; define1 cB lB rB pB])
              (run gm false gr st [define1 cB lB rB pB; define1 cA lA rA pA]).
 Proof.
-  intros HI HrA HrB HA HB. rewrite !(run2 gm gr).
+  intros HI Hclosed HrA HrB HA HB. rewrite !(run2 gm gr).
   rewrite (bind_ext _ _ (define1_sem cB lB rB pB) (fun st' => define1_spec cB lB rB pB st' HrB)).
   rewrite (bind_ext _ _ (define1_sem cA lA rA pA) (fun st' => define1_spec cA lA rA pA st' HrA)).
   rewrite (define1_spec cA lA rA pA st HrA) in *. rewrite (define1_spec cB lB rB pB st HrB) in *.
   pose proof (define_accepted _ _ _ _ _ HA) as FA. pose proof (define_accepted _ _ _ _ _ HB) as FB.
-  pose proof (define_after _ _ _ _ _ _ _ _ _ FA FB) as AB.
-  pose proof (define_after _ _ _ _ _ _ _ _ _ FB FA) as BA.
-  destruct FA as [QA [_ [_ [_ [_ [_ [_ SA]]]]]]]. destruct FB as [QB [_ [_ [_ [_ [_ [_ SB]]]]]]].
+  pose proof (define_after _ _ _ _ _ _ _ _ _ Hclosed FA FB) as AB.
+  pose proof (define_after _ _ _ _ _ _ _ _ _ Hclosed FB FA) as BA.
+  destruct FA as [QA [_ [_ [_ [_ [_ [_ [_ SA]]]]]]]]. destruct FB as [QB [_ [_ [_ [_ [_ [_ [_ SB]]]]]]]].
   rewrite SA, SB. cbn [bind]. rewrite AB, BA.
   rewrite (andb_comm (creator_eqb cA CRoot)), (str_eqb_sym lA lB), (str_eqb_sym pA pB).
   destruct (creator_eqb cB CRoot && creator_eqb cA CRoot); [reflexivity|].
@@ -2905,3 +2953,156 @@ Proof.
 Qed.
 
 End Commute7.
+
+(* ------------------------------------------------------------------------------------------ *)
+(* Steps are only ever created by existing creators; the volatile/input message                 *)
+(* ------------------------------------------------------------------------------------------ *)
+
+Section StepsClosed.
+
+Variable gm : str -> str -> bool.
+Variable ow gr : bool.
+
+Lemma supply_frame k st p st' : supply ow k st p = Ok st' -> same_frame st st'.
+Proof.
+  unfold supply. intros H.
+  destruct (lookup p (claims st)) as [cl|].
+  - destruct (role_eqb (c_role cl) RVolatile); [destruct (phrase_of (c_by cl)); discriminate|].
+    inversion H. repeat split.
+  - destruct (find_owner ow st p) as [[[t tc]|]|]; cbn [bind] in H; try discriminate;
+      destruct (bad_name p); try discriminate; inversion H; try (repeat split; fail).
+    destruct (mem_str p (loose st)); repeat split.
+Qed.
+
+Lemma fold_frame {A} (f : state -> A -> res state) :
+  (forall s a s', f s a = Ok s' -> same_frame s s') ->
+  forall l st st', fold_res f l st = Ok st' -> same_frame st st'.
+Proof.
+  intros Hf. induction l as [|a l IH]; intros st st' H; cbn in H.
+  - inversion H. apply same_frame_refl.
+  - destruct (f st a) as [s1|] eqn:E; cbn [bind] in H; [|discriminate].
+    eapply same_frame_trans; [eapply Hf; eauto|eauto].
+Qed.
+
+Lemma declare_static_files_frame c st ps st' :
+  declare_static_files ow c st ps = Ok st' -> same_frame st st'.
+Proof.
+  unfold declare_static_files. intros H.
+  destruct (static_checks ow c st (sort_uniq ps)) as [todo|]; cbn [bind] in H; [|discriminate].
+  eapply (fold_frame (fun s dp => declare_file ow (fst dp) RStatic s (snd dp))); [|exact H].
+  intros s a s' Hs. eapply declare_file_frame; eauto.
+Qed.
+
+(* what a request does to the table of steps *)
+Lemma step_steps st r st' :
+  step gm ow gr st r = Ok st' ->
+  steps st' = steps st \/
+  exists lbl c, steps st' = (lbl, c) :: steps st /\ require_step st c = Ok tt.
+Proof.
+  intros H. destruct r; cbn [step] in H.
+  - destruct (require_step st c); cbn [bind] in H; [|discriminate].
+    left. apply declare_static_files_frame in H. destruct H as [_ [Hs _]]. exact Hs.
+  - left. unfold register_tree in H.
+    destruct (require_step st c); cbn [bind] in H; [|discriminate].
+    destruct (str_eqb path stepup_dir || is_prefix stepup_prefix path); [discriminate|].
+    destruct (str_eqb (with_slash path) [46; SLASH] || str_eqb (with_slash path) []); [discriminate|].
+    destruct (str_eqb (with_slash path) [SLASH]); [discriminate|].
+    destruct (find_owner ow st (with_slash path)) as [[[t tc]|]|]; cbn [bind] in H; try discriminate.
+    + destruct (creator_eqb tc c); [now inversion H|].
+      destruct (str_eqb t (with_slash path)); [|discriminate].
+      destruct (phrase_of tc) as [x|]; [destruct (phrase_of c) as [y|]|]; try discriminate.
+      destruct (sort2_str x y). discriminate.
+    + destruct (existsb _ (trees st)); [discriminate|].
+      destruct (min_entry _) as [[q cl]|]; [destruct (negb (role_eqb (c_role cl) RStatic)); discriminate|].
+      apply declare_static_files_frame in H. destruct H as [_ [Hs _]]. exact Hs.
+  - left. unfold register_glob in H.
+    destruct (require_step st (CStep s)); cbn [bind] in H; [|discriminate].
+    destruct (if gr then _ else _) as [[q cl]|]; [discriminate|].
+    destruct (find_first _ _); [discriminate|]. now inversion H.
+  - right. unfold define_step in H.
+    destruct (require_step st c) as [[]|] eqn:Er; cbn [bind] in H; [|discriminate].
+    destruct (creator_eqb c CRoot && _); [discriminate|].
+    destruct (dir_inputs _); cbn [bind] in H; [|discriminate].
+    destruct (creator_eqb c (CStep lbl)); [discriminate|].
+    match type of H with (if ?b then _ else _) = _ => destruct b; [discriminate|] end.
+    destruct (glob_check _ _ _ _); cbn [bind] in H; [|discriminate].
+    match type of H with bind ?x _ = _ => destruct x; cbn [bind] in H; [|discriminate] end.
+    destruct (check_all _ _ ROutput _); cbn [bind] in H; [|discriminate].
+    destruct (check_all _ _ RVolatile _); cbn [bind] in H; [|discriminate].
+    destruct (overlap_check _ _ _); cbn [bind] in H; [|discriminate].
+    match type of H with bind (fold_res _ _ ?s) _ = _ => set (st1 := s) in * end.
+    destruct (fold_res (supply ow lbl) (sort_uniq inps) st1) as [st2|] eqn:E2; cbn [bind] in H; [|discriminate].
+    destruct (fold_res (declare_file ow (CStep lbl) ROutput) (sort_uniq outs) st2) as [st3|] eqn:E3;
+      cbn [bind] in H; [|discriminate].
+    apply (fold_frame (supply ow lbl) (supply_frame lbl)) in E2.
+    apply fold_declare_frame in E3. apply fold_declare_frame in H.
+    destruct (same_frame_trans _ _ _ (same_frame_trans _ _ _ E2 E3) H) as [_ [Hs _]].
+    exists lbl, c. split; [exact Hs|exact Er].
+  - left. unfold amend_step in H.
+    destruct (require_step st (CStep s)); cbn [bind] in H; [|discriminate].
+    destruct (dir_inputs _); cbn [bind] in H; [|discriminate].
+    destruct (fold_res (supply ow s) (sort_uniq inps) st) as [st1|] eqn:E1; cbn [bind] in H; [|discriminate].
+    destruct (check_all st1 _ ROutput _) as [o|]; cbn [bind] in H; [|discriminate].
+    destruct (check_all st1 _ RVolatile _) as [v|]; cbn [bind] in H; [|discriminate].
+    destruct (overlap_check _ _ _); cbn [bind] in H; [|discriminate].
+    destruct (glob_check _ _ _ _); cbn [bind] in H; [|discriminate].
+    destruct (fold_res (declare_file ow (CStep s) ROutput) o st1) as [st2|] eqn:E2; cbn [bind] in H; [|discriminate].
+    apply (fold_frame (supply ow s) (supply_frame s)) in E1.
+    apply fold_declare_frame in E2. apply fold_declare_frame in H.
+    destruct (same_frame_trans _ _ _ (same_frame_trans _ _ _ E1 E2) H) as [_ [Hs _]]. exact Hs.
+Qed.
+
+Lemma steps_closed_add sts lbl c :
+  steps_closed sts ->
+  (match c with CStep l => lookup l sts <> None | _ => True end) ->
+  steps_closed ((lbl, c) :: sts).
+Proof.
+  intros Hc Hex l l' H. cbn [lookup] in *.
+  destruct (str_eqb l lbl) eqn:E.
+  - inversion H; subst c. destruct (str_eqb l' lbl); [discriminate|exact Hex].
+  - destruct (str_eqb l' lbl); [discriminate|]. eapply Hc; eauto.
+Qed.
+
+Theorem reachable_steps_closed st : reachable gm ow gr st -> steps_closed (steps st).
+Proof.
+  intros [rs ->]. unfold run_skip.
+  assert (G : forall rs s, steps_closed (steps s) -> steps_closed (steps (fold_left (step_skip gm ow gr) rs s))).
+  { induction rs0 as [|r rs0 IH]; intros s Hs; cbn [fold_left]; [exact Hs|].
+    apply IH. unfold step_skip. destruct (step gm ow gr s r) as [s'|] eqn:E; [|exact Hs].
+    destruct (step_steps _ _ _ E) as [->|[lbl [c [-> Hq]]]]; [exact Hs|].
+    apply steps_closed_add; [exact Hs|].
+    destruct c as [|l|t]; [exact I| |exact I].
+    unfold require_step, step_exists in Hq. destruct (lookup l (steps s)); [discriminate|discriminate Hq]. }
+  apply G. intros l l' H. discriminate H.
+Qed.
+
+(* _volatile_input_message: a path that one step declares volatile and another step uses as an
+   input, with no earlier consumer.  Volatile first: _resolve_supply_file raises; input first:
+   _declare_file raises; the same structured message (path, producer, consumer), hence the same
+   text. *)
+Theorem volatile_input_either_order st a b p st_a st_b :
+  filter (fun e => str_eqb (fst e) p) (sinks st) = [] ->
+  mem_str p (loose st) = false ->
+  find_owner ow st p = Ok None ->
+  declare_file ow (CStep a) RVolatile st p = Ok st_a ->
+  supply ow b st p = Ok st_b ->
+  supply ow b st_a p = Err (MVolInput p (phrase_step a) (phrase_step b)) /\
+  declare_file ow (CStep a) RVolatile st_b p = Err (MVolInput p (phrase_step a) (phrase_step b)).
+Proof.
+  intros Hs Hl Ho Ha Hb.
+  unfold declare_file in Ha. cbn [role_eqb andb bind] in Ha. 
+  destruct (ends_with_c SLASH p) eqn:F1; [discriminate|]. rewrite Ho in Ha. cbn [bind] in Ha.
+  destruct (is_prefix stepup_prefix p) eqn:F3; [discriminate|].
+  destruct (bad_name p) eqn:F4; [discriminate|].
+  destruct (lookup p (claims st)) eqn:F5; [discriminate|].
+  rewrite Hl in Ha. inversion Ha; subst st_a. clear Ha.
+  unfold supply in Hb. rewrite F5, Ho in Hb. cbn [bind] in Hb. rewrite F4, Hl in Hb.
+  inversion Hb; subst st_b. clear Hb. split.
+  - unfold supply. cbn [claims set_claim lookup]. rewrite str_eqb_refl. reflexivity.
+  - unfold declare_file. cbn [role_eqb andb bind]. rewrite F1.
+    change (find_owner ow (add_sink _ p b) p) with (find_owner ow st p). rewrite Ho. cbn [bind].
+    rewrite F3, F4. cbn [claims loose add_sink mem_str]. rewrite F5, str_eqb_refl. cbn [orb phrase_of].
+    unfold first_consumer. cbn [sinks add_sink filter fst]. rewrite str_eqb_refl, Hs. reflexivity.
+Qed.
+
+End StepsClosed.
